@@ -358,7 +358,8 @@ pub fn generate(rng: &mut Rng, features: &[&str]) -> SvModule {
     }
     if has("always_comb_if") {
         let n = fresh("v");
-        let s = format!("        {n} = {};\n        if (a == b) begin\n            {n} = {};\n        end\n", g.safe(&env8, 1), g.safe(&env8, 1));
+        // the condition must fire often, otherwise a translation that drops the `if` goes unnoticed on a short stimulus
+        let s = format!("        {n} = {};\n        if (a[0]) begin\n            {n} = (~{n});\n        end\n", g.safe(&env8, 1));
         comb(&mut decls, &mut body, &n, s);
         y1_terms.push(n);
     }
